@@ -88,6 +88,13 @@ CHECKS.update({
   text="I=>P is exhaustive over bounded subsets / processing orders / reuse histories (3-4 types, <=3 runs, fresh or reused LanguageContext and generator, new process); every violating history of the four negative controls and 7k-75k histories of the repaired model are replayed through the real generator, and every file written in ~600 (quick) / 5k (thorough) multi-run single-interpreter scenarios (whole namespace vs closed subsets vs permuted order vs reused objects vs edited definitions, c/cpp/py/html, built-in and user templates, line post-processors on/off) is judged by the P-layer memo: two files for the same (type, templates, options) must be identical.",
   note=TB + "passive harness post-processors; gzip clock frozen and one directory per scenario (those are C07's variables). Not exercised: the nnvg CLI, namespace and support files."),
 })
+
+CHECKS.update({
+ "C07": dict(cat="model_checking", ref="DESIGN.md §6 C07",
+  technique="explicit-state model checking of a two-run information-flow model of the generator (every set-iteration permutation x ambient pair; named gates where ambient state can reach content) + replay of every flow witness through the real CLI + TLC trace validation of recorded generator runs under really varied clock, hash seed, process, cwd and location",
+  text="TLC explores the bounded generator design (<=3-4 types, <=3 nested namespaces, 4 targets, 8 ambient pairs, all iteration orders) exhaustively and reports which ambient-to-content flows exist; each witness is replayed against the real CLI under the two ambient states or 5-9 hash seeds; hundreds (thorough: thousands) of real runs - 4 targets, 34 option sets, subprocess / long-lived worker / in-process, patched clock + TZ, hash seeds, cwd, three absolute locations of different length - are judged by the same P-layer (first[inputs, options] must equal every later run). A campaign with auditing enabled may differ and is accepted.",
+  note=TB + "sha256; the launcher's clock patch (self-tested); one Python 3.12, one PyDSDL, one platform (locale, umask, Python version not varied)."),
+})
 NOT_YET = {}
 props = [json.loads(l) for l in open(V / "properties.jsonl")]
 checks, na = [], []
